@@ -22,6 +22,14 @@ pub fn broadcast_leaves(var: u64) -> Vec<LeafSpec> {
     ]
 }
 
+pub fn long_leaves(var: u64) -> Vec<LeafSpec> {
+    vec![
+        LeafSpec { dims: vec![11], vals: (0..11).map(|i| ((i * 7 + 2) % 11) as f64 - 4.0 + var as f64).collect(), tracked: true },
+        LeafSpec { dims: vec![11], vals: (0..11).map(|i| ((i * 5 + 1) % 9) as f64 - 3.0).collect(), tracked: true },
+        LeafSpec { dims: vec![11], vals: (0..11).map(|i| ((i * 3) % 7) as f64 + 1.0).collect(), tracked: false },
+    ]
+}
+
 pub fn dense_leaves(var: u64) -> Vec<LeafSpec> {
     vec![
         LeafSpec { dims: vec![2, 3], vals: vec![1.0, -2.0, 3.0 + var as f64, 0.5, 1.5, -1.0], tracked: false },
@@ -86,6 +94,16 @@ pub fn machines(opts: &Opts) -> Vec<MCfg> {
             m.seeds = vec![0, 1];
             m.check_fresh_diff = true;
             out.push(m);
+            // the caller keeps the seed (the same array seeds several passes) and feeds fetched gradients back as seeds
+            let mut m = base_cfg("N1P3G1/caller-held-seeds", same_shape_leaves(var), vec![OpK::Add, OpK::Mul, OpK::Reshape(vec![1, 2])], 6);
+            m.bounds = Bounds { builds: 1, passes: 3, fetches: 1, clears: 1, depth: 5, ..Bounds::default() };
+            m.seeds = vec![0, 3];
+            out.push(m);
+            // arrays longer than any block or lane width, accumulated over passes and consumers
+            let mut m = base_cfg("N2P2/long-arrays", long_leaves(var), vec![OpK::Add, OpK::Mul], 5);
+            m.bounds = b(2, 2, 0, 0, 4);
+            m.seeds = vec![0];
+            out.push(m);
             // handles cloned, flagged and dropped between passes
             let two: Vec<LeafSpec> = same_shape_leaves(var).into_iter().take(2).collect();
             let mut m = base_cfg("N1P2F2K1D1/handles-between-passes", two, vec![OpK::Mul], 4);
@@ -124,6 +142,14 @@ pub fn machines(opts: &Opts) -> Vec<MCfg> {
             m.bounds = b(2, 2, 1, 1, 6);
             m.seeds = vec![0];
             m.merged = false;
+            out.push(m);
+            let mut m = base_cfg("N2P3G2/caller-held-seeds", same_shape_leaves(var), vec![OpK::Add, OpK::Mul, OpK::Reshape(vec![1, 2])], 7);
+            m.bounds = Bounds { builds: 2, passes: 3, fetches: 2, clears: 1, depth: 7, ..Bounds::default() };
+            m.seeds = vec![0, 3];
+            out.push(m);
+            let mut m = base_cfg("N3P2C1/long-arrays", long_leaves(var), vec![OpK::Add, OpK::Mul, OpK::Neg], 6);
+            m.bounds = b(3, 2, 1, 0, 6);
+            m.seeds = vec![0];
             out.push(m);
             let mut m = base_cfg("N3P2C1/dense-like", dense_leaves(var), vec![OpK::Matmul { ta: false, tb: true, bias: true }, OpK::Relu, OpK::Mul, OpK::Sum(1)], 6);
             m.bounds = b(3, 2, 1, 0, 6);
